@@ -111,8 +111,8 @@ def c06(ctx):
         ctx.tlc("KyberPairing", cfg(constants=acc, invariants=["TypeOK"], view="View"), name="C06_mc_inplace")
         out2 = os.path.join(ctx.tmp, "C06_bfs_inplace.ndjson")
         ctx.tlc("KyberPairing", cfg(constants=acc, invariants=["Emit"]), name="C06_gen_bfs_inplace", collect=out2)
-        ctx.run_vh("pairing", ["-in", out2, "-bindings", 2, "-max", 40000])
-    for name, consts, num in (("acc", acc, 1500 if q else 20000), ("full", full, 300 if q else 20000)):
+        ctx.run_vh("pairing", ["-in", out2, "-bindings", 2, "-max", 12000])
+    for name, consts, num in (("acc", acc, 1500 if q else 8000), ("full", full, 300 if q else 5000)):
         sim = os.path.join(ctx.tmp, "C06_sim_%s.ndjson" % name)
         ctx.tlc("KyberPairing", cfg(constants=consts, invariants=["Emit"]), name="C06_gen_sim_" + name, collect=sim,
                 simulate="num=%d" % num, depth=9, workers=1)
@@ -144,7 +144,7 @@ def _sections(path):
         if line.startswith("#"):
             continue
         f = line.rstrip("\n").split("|")
-        sec = f[0] if f[0] in ("modint", "random", "xof", "schnorr", "eddsa", "share", "pubshare", "recover") else "group:" + f[0]
+        sec = f[0] if (f[0] in ("modint", "random", "xof", "schnorr", "eddsa", "share", "pubshare", "recover") or f[0].startswith("decode:")) else "group:" + f[0]
         d.setdefault(sec, []).append(line.rstrip("\n"))
     return d
 
